@@ -117,7 +117,11 @@ func TestVerifC02Full(t *testing.T) {
 	rng := rand.New(rand.NewSource(vhSeed()))
 
 	var cases []*c02Case
-	for _, v := range c02Scenarios() {
+	scen := c02Scenarios()
+	for r, n := 1, len(scen); r < vhEnvInt("VERIF_REPS", 1); r++ {
+		scen = append(scen, scen[:n]...)
+	}
+	for _, v := range scen {
 		for _, mode := range c02Modes {
 			for _, qt := range c02QTName {
 				for _, ups := range c02UpsCls {
